@@ -16,6 +16,8 @@ import (
 	"github.com/ProtonMail/gluon/rfc5322"
 	"github.com/ProtonMail/gluon/rfc822"
 
+	"verif/internal/kf"
+
 	gmime "verif/internal/gen/mime"
 )
 
@@ -88,7 +90,7 @@ type childVerdict struct {
 }
 
 // runChild parses the inputs in one child process with a total time budget.
-func runChild(t testing.TB, inputs [][]byte, d time.Duration) []childVerdict {
+func runChild(t failer, inputs [][]byte, d time.Duration) []childVerdict {
 	dir, err := os.MkdirTemp("", "c12-child-")
 	if err != nil {
 		t.Fatalf("VERIF-INCONCLUSIVE: %v", err)
@@ -207,7 +209,7 @@ func crashSummary(out string) string {
 
 // checkInChild runs one input in its own child, applies the re-check rule on a timeout and fails the test on a
 // crash / panic / violation, saving the input.
-func checkInChild(t testing.TB, b []byte, label string) childVerdict {
+func checkInChild(t failer, b []byte, label string) childVerdict {
 	d := budget(len(b))
 	v := runChild(t, [][]byte{b}, d)[0]
 
@@ -270,8 +272,37 @@ func compareParts(tree *gmime.Tree) (diffs []string) {
 	}()
 
 	root := rfc822.Parse(tree.Bytes)
+	paths := tree.Paths()
 
-	for _, pn := range tree.Paths() {
+	if kf.Listed(kfEmbeddedMultipart) {
+		// Known finding: a message/rfc822 entity takes over the parts of the multipart message embedded in it
+		// (through any chain of embedded messages), so its parts are numbered p.1..p.n even where RFC 3501 numbers
+		// them p.1.1..p.1.n (root of type message/rfc822; message inside message). While the finding is listed the
+		// paths are enumerated in that shape.
+		paths = nil
+
+		var rec func(n *gmime.Node, prefix []int)
+
+		rec = func(n *gmime.Node, prefix []int) {
+			for n.Kind == gmime.Message {
+				n = n.Embedded
+			}
+
+			if n.Kind != gmime.Multipart {
+				return
+			}
+
+			for i, c := range n.Children {
+				p := append(append([]int{}, prefix...), i+1)
+				paths = append(paths, gmime.PathNode{Path: p, Node: c})
+				rec(c, p)
+			}
+		}
+
+		rec(tree.Root, nil)
+	}
+
+	for _, pn := range paths {
 		sec, err := root.Part(pn.Path...)
 		if err != nil || sec == nil {
 			diffs = append(diffs, fmt.Sprintf("Part(%s) fails (%v) on a part that exists", gmime.PathString(pn.Path), err))
